@@ -672,6 +672,7 @@ fn replay(path: &str) -> i32 {
     if reference_pass || refs_failed.is_some() {
         // the recorded failure was in (or this tree fails already in) the deterministic sequential reference run
         let _ = std::fs::remove_dir_all(&dir);
+        let _ = std::fs::remove_dir_all(scratch());
         return match refs_failed {
             Some(m) => {
                 println!("VIOLATION property=C20 replay={}", path);
@@ -698,6 +699,7 @@ fn replay(path: &str) -> i32 {
         })
     }));
     let _ = std::fs::remove_dir_all(&dir);
+    let _ = std::fs::remove_dir_all(scratch());
     match res {
         Ok(_) => {
             println!("replay {}: no violation (property holds on this tree for this schedule)", path);
